@@ -3,6 +3,7 @@ import ast
 
 from . import rule, info
 from ..program import AnalysisError, src, norm, ClassInfo
+from ..pattern import match, matches
 from ..util import (raised_class, is_subclass, exclusive, polarity, is_name, calls_in, callee_qual, deref, ancestors, handler_outcomes, handler_body_nodes,
                     enclosing_trys, in_handler_of, handler_covers, completes_normally, cls_name, fmt_witness,
                     stmt_of)
@@ -593,3 +594,40 @@ def error_construction_is_total(ctx):
                    '' if not bad else '%s can itself raise for arbitrary keys or targets and replace the error' % bad, node=r)
     if n < 20:
         raise AnalysisError('C04.15: only %d GlomError raise sites found (floor 20)' % n)
+
+
+@rule('C04.16')
+def glom_options(ctx):
+    """the three options that decide how glom() treats a failure are read under their own names
+    with the documented fallbacks: default -> no default (or None when only skip_exc is given),
+    skip_exc -> nothing without a default / GlomError with one, glom_debug -> the module flag"""
+    p = ctx.program
+    u = ctx.unit('core.glom')
+    cfg = ctx.cfg(u)
+    kw = u.kwarg
+    pops = {}
+    for n in u.own_nodes():
+        if isinstance(n, ast.Assign) and is_name(n.targets[0]) and isinstance(n.value, ast.Call):
+            b = match(n.value, '%s.pop($$k, $$d)' % kw)
+            if b:
+                ctx.ob(isinstance(b['k'], ast.Constant) and isinstance(b['k'].value, str), u,
+                       'an option is read by its name: %s' % norm(n), node=n)
+                if isinstance(b['k'], ast.Constant):
+                    pops[b['k'].value] = (n.targets[0].id, b['d'])
+    need = {'default', 'skip_exc', 'glom_debug'}
+    ctx.ob(need <= set(pops), u, 'default, skip_exc and glom_debug are options of glom(): %s' % sorted(pops))
+    if not need <= set(pops):
+        return
+    dv, sv, gv = pops['default'][0], pops['skip_exc'][0], pops['glom_debug'][0]
+    ctx.ob(matches(pops['default'][1], "None if 'skip_exc' in %s else _MISSING" % kw), u,
+           'no default unless one is given (None when only skip_exc is given): %s' % norm(pops['default'][1]))
+    ctx.ob(matches(pops['skip_exc'][1], '() if %s is _MISSING else GlomError' % dv), u,
+           'without a default nothing is skipped; with one, GlomErrors are: %s' % norm(pops['skip_exc'][1]))
+    d = pops['glom_debug'][1]
+    ctx.ob(is_name(d) and p.global_qualname(u, d) == 'core.GLOM_DEBUG', u, 'debug mode follows the module flag unless asked for: %s' % norm(d))
+    hs = [h for h in cfg.nodes if h.kind == 'handler']
+    ctx.ob(any(is_name(h.ast.type, sv) for h in hs), u, 'the inner handler catches exactly the skip_exc option')
+    dbg = [t for t in cfg.nodes if t.kind == 'test' and is_name(t.ast, gv)]
+    ok = len(dbg) == 1 and any(isinstance(s_.ast, ast.Raise) and s_.ast.exc is None for s_, lab in dbg[0].succ if lab == 'true')
+    ctx.ob(ok, u, 'only debug mode re-raises the raw exception (no translation, no trace)')
+    ctx.floor(7)
